@@ -412,6 +412,25 @@ func (t *Terms) applyClosure(cl *Closure, args []sym.Expr) (sym.Expr, error) {
 	}
 	// paths are exclusive and exhaustive: fold into nested ite
 	var out sym.Expr
+	// conjuncts that merely negate the condition of an earlier branch are implied by the nesting
+	earlier := make([]map[string]bool, len(m.Paths))
+	acc := map[string]bool{}
+	for i, p := range m.Paths {
+		earlier[i] = map[string]bool{}
+		for k := range acc {
+			earlier[i][k] = true
+		}
+		var own []string
+		for _, c := range p.Conds {
+			if lg, ok := c.(sym.Logic); ok && lg.Op == "!" && acc[sym.CanonString(lg.Args[0])] {
+				continue
+			}
+			own = append(own, sym.CanonString(c))
+		}
+		if len(own) == 1 {
+			acc[own[0]] = true
+		}
+	}
 	for i := len(m.Paths) - 1; i >= 0; i-- {
 		p := m.Paths[i]
 		ret := sym.Subst(p.Ret[0], sub)
@@ -421,6 +440,9 @@ func (t *Terms) applyClosure(cl *Closure, args []sym.Expr) (sym.Expr, error) {
 		}
 		var cond sym.Expr
 		for _, c := range p.Conds {
+			if lg, ok := c.(sym.Logic); ok && lg.Op == "!" && earlier[i][sym.CanonString(lg.Args[0])] {
+				continue
+			}
 			cs := sym.Subst(c, sub)
 			if cond == nil {
 				cond = cs
